@@ -100,6 +100,38 @@ def check_site(ctx, fi, name, total, latom, loff, node, guard_cond=None):
             if v != want:
                 bad.append({'cards_incl_END': L, 'DIRECTIO': d, 'site_gives': int(v), 'spec': want})
                 break
+    # header values read back from a file are TEXT ('0' is truthy): the card must be tested through int()
+    textual = []
+    for c in conds.values():
+        def raw_uses(t, under_int=False):
+            out = []
+            for a in t.atoms():
+                is_card = (a.kind == 'call' and a.args[0] in ('.get', 'get') and len(a.args[1]) >= 2 and a.args[1][1].key == lift('DIRECTIO').key) \
+                    or (a.kind == 'sub' and a.args[1].key == lift('DIRECTIO').key)
+                if is_card:
+                    if not under_int:
+                        out.append(a)
+                    continue
+                if a.kind == 'cmp' and a.args[0] in ('in', 'not in'):
+                    continue            # presence test of the key
+                if a.kind == 'cmp' and any(isinstance(x, Term) and x.single_atom() is not None and x.single_atom().kind == 'str'
+                                           for x in a.args[1:]):
+                    continue            # compared with a text literal: a textual test of a textual value
+                inner_int = a.kind == 'call' and a.args[0] in ('trunc', 'int', 'float', 'round')
+                for x in a.args:
+                    for y in (x if isinstance(x, tuple) else (x,)):
+                        if isinstance(y, Term):
+                            out += raw_uses(y, inner_int)
+                        elif isinstance(y, tuple):
+                            for z in y:
+                                if isinstance(z, Term):
+                                    out += raw_uses(z, inner_int)
+            return out
+        if raw_uses(c):
+            textual.append(pretty(c)[:160])
+    if textual:
+        ctx.ob('RESIDUE', f'{name}: the DIRECTIO card is tested as a number (int(...)), not as text or by truthiness', fi, False,
+               {'guard': textual}, node=node, construct=f'{name} [DIRECTIO test]')
     detail = {'expression': pretty(total)[:400], 'directio_guard': [pretty(c) for c in conds.values()] or 'none',
               'residues': 'L=1..64 x DIRECTIO in {0,1}', 'witness': bad}
     if undec and not bad:
@@ -285,32 +317,17 @@ def run(ctx):
 
     # =============================================================== D6 file split
     ctx.clause = 'D6'
-    nf = [e for e in Ir.events if e.kind == 'store' and e.data.get('name') == 'num_files']
-    ctx.require(nf, 'record() no longer computes num_files')
-    J = ctx.interp()
-    J.heap = dict(Ir.heap)
-    ctx.formula('FORMULA', 'num_files == ceil(num_blocks / blocks_per_file)', rec, nf[-1].data['value'],
-                ctx.spec(rec, 'int(np.ceil(self.num_blocks / self.blocks_per_file))', I=J), node=nf[-1].node)
-    btw = [e for e in Ir.events if e.kind == 'store' and e.data.get('name') == 'blocks_to_write']
-    ctx.require(btw, 'record() no longer computes blocks_to_write')
+    from .common import record_block_requests
+    record_block_requests(ctx, rec, Ir)
     ctx.require(len(mkh.loops) >= 2, 'record(): header emission is no longer inside a block loop nested in a file loop')
-    trip = mkh.loops[-1]['trip']
-    fl = mkh.loops[-2]
-    rng = [e for e in Ir.events if e.kind == 'loop' and e.data['info']['id'] == mkh.loops[-1]['id']]
-    i_t = fl['index']
-    J2 = ctx.interp()
-    J2.heap = dict(Ir.heap)
-    spec = ctx.spec(rec, 'ITE(FI == NF - 1 and self.num_blocks % self.blocks_per_file != 0, '
-                         'self.num_blocks % self.blocks_per_file, self.blocks_per_file)',
-                    env={'FI': i_t, 'NF': nf[-1].data['value']}, I=J2)
-    ctx.formula('FORMULA', 'blocks written to file i == remainder in the last file, else blocks_per_file', rec, trip, spec,
-                node=rng[0].node, construct='for j in range(blocks_to_write)')
-    fn = [e for e in Ir.events if e.kind == 'store' and e.data.get('name') == 'save_fn']
-    ctx.require(fn, 'record() no longer builds save_fn')
-    ok = mentions(fn[-1].data['value'], lambda a: a.kind == 'call' and a.args[0] == 'fmt' and a.args[1][0].key == i_t.key
+    i_t = mkh.loops[-2]['index']
+    fn = [e for e in Ir.events if e.kind == 'call' and e.data.get('name') == 'open' and len(e.data['args']) >= 2
+          and e.data['args'][1].key == lift('wb').key]
+    ctx.require(fn, 'record() no longer opens an output file for binary writing')
+    ok = mentions(fn[-1].data['args'][0], lambda a: a.kind == 'call' and a.args[0] == 'fmt' and a.args[1][0].key == i_t.key
                   and a.args[1][1].key == lift('04').key)
     ctx.ob('FORMULA', 'file name carries the file-loop index as a 4-digit sequence number', rec, ok,
-           {'save_fn': pretty(fn[-1].data['value'])}, node=fn[-1].node)
+           {'opened': pretty(fn[-1].data['args'][0])}, node=fn[-1].node)
 
     # =============================================================== D7 directory listing order
     ctx.clause = 'D7'
